@@ -1,5 +1,12 @@
 from typedpy.commons import wrap_val
-from typedpy.structures import Field, FieldMeta, NoneField, ClassReference, TypedField
+from typedpy.structures import (
+    Field,
+    FieldMeta,
+    NoneField,
+    ClassReference,
+    Structure,
+    TypedField,
+)
 from .fields import _map_to_field
 
 
@@ -12,6 +19,18 @@ class _JSONSchemaDraft4ReuseMeta(FieldMeta):
             fields = [validate_and_get_field(it) for it in item]
             return cls(fields)  # pylint: disable=E1120, E1123
         return cls([validate_and_get_field(item)])  # pylint: disable=E1120, E1123
+
+
+def _scratch_instance(instance):
+    """
+    The options of a multi-field wrapper are validated against a scratch structure, so that
+    neither a rejected value nor an intermediate normal form is ever stored in the real instance.
+    """
+    scratch = Structure()
+    for flag in ("_skip_validation", "_trust_supplied_values"):
+        if getattr(instance, flag, False):
+            scratch.__dict__[flag] = True
+    return scratch
 
 
 def _str_for_multioption_field(instance):
@@ -65,7 +84,7 @@ class AllOf(MultiFieldWrapper, Field, metaclass=_JSONSchemaDraft4ReuseMeta):
     def __set__(self, instance, value):
         for field in self.get_fields():
             setattr(field, "_name", self._name)
-            field.__set__(instance, value)
+            field.__set__(_scratch_instance(instance), value)
         super().__set__(instance, value)
 
     def __str__(self):
@@ -119,10 +138,12 @@ class AnyOf(MultiFieldWrapper, Field, metaclass=_JSONSchemaDraft4ReuseMeta):
             super().__set__(instance, value)
             return
         matched = False
+        scratch = None
         for field in self.get_fields():
             setattr(field, "_name", self._name)
             try:
-                field.__set__(instance, value)
+                scratch = _scratch_instance(instance)
+                field.__set__(scratch, value)
                 matched = True
                 break
             except TypeError:
@@ -136,7 +157,7 @@ class AnyOf(MultiFieldWrapper, Field, metaclass=_JSONSchemaDraft4ReuseMeta):
                 f"{prefix}{wrap_val(value)} of type {value.__class__.__name__} did not match"
                 f" any field option. Valid types are: {valid_type_names}."
             )
-        super().__set__(instance, getattr(instance, self._name))
+        super().__set__(instance, scratch.__dict__[self._name])
 
     def __str__(self):
         return _str_for_multioption_field(self)
@@ -169,7 +190,7 @@ class OneOf(MultiFieldWrapper, Field, metaclass=_JSONSchemaDraft4ReuseMeta):
         for field in self.get_fields():
             setattr(field, "_name", self._name)
             try:
-                field.__set__(instance, value)
+                field.__set__(_scratch_instance(instance), value)
                 matched += 1
             except TypeError:
                 pass
@@ -220,7 +241,7 @@ class NotField(MultiFieldWrapper, Field, metaclass=_JSONSchemaDraft4ReuseMeta):
         for field in self.get_fields():
             setattr(field, "_name", self._name)
             try:
-                field.__set__(instance, value)
+                field.__set__(_scratch_instance(instance), value)
             except TypeError:
                 pass
             except ValueError:
